@@ -35,6 +35,7 @@ def main(argv=None):
     ap.add_argument("--replay", default=None)
     ap.add_argument("--write-baseline", action="store_true")
     ap.add_argument("--no-evidence", action="store_true")
+    ap.add_argument("--bounded-only", action="store_true", help="seed sweeps of the bounded stand-ins: no proof units, no baseline, no evidence")
     args = ap.parse_args(argv)
     tier = args.tier if args.tier in ("quick", "thorough") else "quick"
     seed = int(os.environ.get("VERIF_SEED", "0") or 0)
@@ -53,6 +54,8 @@ def main(argv=None):
         units = [u for u in units if u not in getattr(mod, "THOROUGH_ONLY", ())]
     if args.only:
         units = [u for u in units if args.only in u]
+    if args.bounded_only:
+        units, args.no_evidence = [], True
     results = runner.run_units(f"pdv.contracts.{prop}", units, tier, jobs=args.jobs)
     # units with undecided proof obligations are re-run once with little parallelism (solver budgets are
     # wall-clock; a busy machine must not turn a provable obligation into UNDECIDED)
@@ -89,7 +92,7 @@ def main(argv=None):
         os.makedirs(os.path.dirname(base_path), exist_ok=True)
         json.dump(names, open(base_path, "w"), indent=0)
     missing = []
-    if os.path.exists(base_path) and not args.only:
+    if os.path.exists(base_path) and not args.only and not args.bounded_only:
         expected = set(json.load(open(base_path)))
         missing = sorted(expected - set(names))
         for m in missing:
@@ -184,7 +187,7 @@ def main(argv=None):
         for u, k, msg, _ in undecided[:40]:
             print(f"UNDECIDED property={prop} {u} {k}: {str(msg)[:300]}")
         return 2
-    if n_ob == 0:
+    if n_ob == 0 and not args.bounded_only:
         print(f"CHECKER-BROKEN property={prop} zero obligations")
         return 3
     return 0
